@@ -99,3 +99,27 @@ def closed_form_scales(a0, s, dt, n):
     sv = abs(a0) * T + abs(s) * T * T / 2.0
     sd = abs(a0) * T * T / 2.0 + abs(s) * T ** 3 / 6.0 + abs(s) * float(dt) ** 2 * T / 12.0
     return sv, sd
+
+
+def reference_pairs(record, dt, trap):
+    """Every (velocity, displacement) pair the statement admits for this record, computed from the record alone:
+    trapezoid -> one pair; rectangle rule -> the side is free for each of the two integrations (left/right)."""
+    if trap:
+        v = integrate(record, dt, 'trap')
+        return [('trap', 'trap', v, integrate(v, dt, 'trap'))]
+    out = []
+    for rv in ('left', 'right'):
+        v = integrate(record, dt, rv)
+        for rd in ('left', 'right'):
+            out.append((rv, rd, v, integrate(v, dt, rd)))
+    return out
+
+
+def running_sum_tolerances(eps, n, dt, amax, vmax, dmax, k=4.0):
+    """Worst-case rounding allowance when a series is compared with an independently computed running sum:
+    n additions each rounded relative to the partial sum (<= n*eps*max|v|) plus the roundings of the terms
+    (<= eps*n*dt*max|a|); the error of v enters d through n further panels of width dt."""
+    dt = abs(float(dt))
+    tv = k * eps * n * (vmax + dt * amax)
+    td = k * eps * n * (dmax + dt * vmax) + n * dt * tv
+    return tv, td
